@@ -677,6 +677,18 @@ fn cmd_access(a: &Args) -> i32 {
             break;
         }
     }
+    // sequential programs over an ArcSwapOption (Some / None stores under held projection guards)
+    let prev_mode = sched::mode();
+    sched::set_mode(Mode::Off);
+    let nprog = a.u64("optprogs", if cfg!(miri) { 2 } else { (execs / 4).clamp(20, 5000) });
+    let mut checked = 0;
+    for n in 0..nprog {
+        let s = util::mix(seed.wrapping_mul(0x6000_0011), shard * 1_000_000 + n);
+        checked += if n % 2 == 0 { wl_access::option_program::<DefaultStrategy>(s) } else { wl_access::option_program::<FillFastSlots>(s) };
+    }
+    sched::set_mode(prev_mode);
+    runner::count("access.option_programs", nprog);
+    runner::count("access.option_program_guard_checks", checked);
     runner::count("distinct_nontrivial", hashes.len() as u64);
     let live = wl_access::ROOTS_LIVE.load(std::sync::atomic::Ordering::SeqCst);
     if live != 0 {
